@@ -93,3 +93,62 @@ package sequence
 //@     invariant 0 <= p && p < len(w.chain) && wfW(w) && n == w.chain[p] && 0 <= it1 && it1 <= len(n.Matches)
 //@     invariant runE(w.chain, w.p, w.jumpBack, old(ghost(world, 0))) == rfE(w.chain, p, w.jumpBack, it1, ghost(world, 0))
 //@     invariant runW(w.chain, w.p, w.jumpBack, old(ghost(world, 0))) == rfW(w.chain, p, w.jumpBack, it1, ghost(world, 0))
+
+// ---------------------------------------------------------------------------
+// Built-in actions (C06), each stated from the property text:
+//   accept/reject end all processing; return resumes after the calling jump (or ends);
+//   jump runs the target and then continues; goto runs the target and never comes back.
+
+//@ func NewChainWalker [C06]
+//@   ensures result.p == 0 && result.chain == chain && result.jumpBack == jumpBack
+
+//@ func (a ActionAccept) Exec [C06]
+//@   ensures result == nil && ghost(world, 0) == old(ghost(world, 0)) && calls(ExecNext) == 0
+
+//@ func (a ActionReject) Exec [C06, C03]
+//@   requires qCtx != nil && qCtx.query != nil
+//@   modifies *
+//@   preserves comp(ChainNode), comp(ChainWalker), elemsof(*ChainNode), elemsof(Matcher)
+//@   ensures result == nil && ghost(world, 0) == old(ghost(world, 0)) && calls(ExecNext) == 0
+//@   ensures calls(SetResponse) == 1 && arg(SetResponse, 0, 0) == qCtx && fresh(arg(SetResponse, 0, 1)) && atcall(SetResponse, 0, arg(SetResponse, 0, 1).Rcode == a.Rcode && arg(SetResponse, 0, 1).Id == old(qCtx.query.Id) && arg(SetResponse, 0, 1).Response)
+//@   ensures old(len(qCtx.query.Question)) == 1 ==> atcall(SetResponse, 0, len(arg(SetResponse, 0, 1).Question) == 1 && arg(SetResponse, 0, 1).Question[0] == old(qCtx.query.Question[0]))
+
+//@ func (a ActionReturn) Exec [C06]
+//@   requires qCtx != nil && wfW(next.jumpBack)
+//@   modifies *
+//@   preserves comp(ChainNode), comp(ChainWalker), elemsof(*ChainNode), elemsof(Matcher)
+//@   ensures next.jumpBack == nil ==> result == nil && ghost(world, 0) == old(ghost(world, 0)) && calls(ExecNext) == 0
+//@   ensures next.jumpBack != nil ==> result == runE(next.jumpBack.chain, next.jumpBack.p, next.jumpBack.jumpBack, old(ghost(world, 0))) && ghost(world, 0) == runW(next.jumpBack.chain, next.jumpBack.p, next.jumpBack.jumpBack, old(ghost(world, 0)))
+
+//@ func (a *ActionJump) Exec [C06]
+//@   requires a != nil && qCtx != nil && wfChain(a.To) && wfChain(next.chain) && 0 <= next.p && wfW(next.jumpBack)
+//@   modifies *
+//@   preserves comp(ChainNode), comp(ChainWalker), elemsof(*ChainNode), elemsof(Matcher)
+//@   ensures calls(ExecNext) == 1 && fresh(arg(ExecNext, 0, 0).jumpBack) && arg(ExecNext, 0, 0).jumpBack.chain == next.chain && arg(ExecNext, 0, 0).jumpBack.p == next.p && arg(ExecNext, 0, 0).jumpBack.jumpBack == next.jumpBack
+//@   ensures result == runE(old(a.To), 0, arg(ExecNext, 0, 0).jumpBack, old(ghost(world, 0))) && ghost(world, 0) == runW(old(a.To), 0, arg(ExecNext, 0, 0).jumpBack, old(ghost(world, 0)))
+
+//@ func (a ActionGoto) Exec [C06]
+//@   requires qCtx != nil && wfChain(a.To)
+//@   modifies *
+//@   preserves comp(ChainNode), comp(ChainWalker), elemsof(*ChainNode), elemsof(Matcher)
+//@   ensures result == runE(a.To, 0, nil, old(ghost(world, 0))) && ghost(world, 0) == runW(a.To, 0, nil, old(ghost(world, 0)))
+
+//@ func (s *Sequence) Exec [C06]
+//@   requires s != nil && qCtx != nil && wfChain(s.chain)
+//@   modifies *
+//@   preserves comp(ChainNode), comp(ChainWalker), elemsof(*ChainNode), elemsof(Matcher)
+//@   ensures result == runE(old(s.chain), 0, nil, old(ghost(world, 0))) && ghost(world, 0) == runW(old(s.chain), 0, nil, old(ghost(world, 0)))
+
+// '!' negation: the verdict is inverted, errors pass through (verdict false), the matcher runs exactly once
+//@ func (r reverseMatch) Match [C06]
+//@   requires r.m != nil
+//@   modifies *
+//@   preserves comp(ChainNode), comp(ChainWalker), elemsof(*ChainNode), elemsof(Matcher)
+//@   ensures calls(Match) == 1 && ghost(world, 0) == mW(r.m, old(ghost(world, 0))) && result_1 == mErr(r.m, old(ghost(world, 0)))
+//@   ensures result_1 == nil ==> result_0 == !mOk(r.m, old(ghost(world, 0)))
+//@   ensures result_1 != nil ==> !result_0
+
+//@ func (m MatchAlwaysTrue) Match [C06]
+//@   ensures result_0 && result_1 == nil
+//@ func (m MatchAlwaysFalse) Match [C06]
+//@   ensures !result_0 && result_1 == nil
